@@ -34,25 +34,32 @@ def run(ctx):
     rng = random.Random(ctx.seed)
     hists = []
     depth = 4 if ctx.thorough else 3
-    mcg = ctx.instance("MCG2_FilerNS_C21", "FilerNS", fc.cfg_text("FilerNS_c21.cfg", "VIEW ViewMC", "INVARIANT EmitW"),
+    mcg = ctx.instance("MCG2_FilerNS_C21", "FilerNS", fc.cfg_text("FilerNS_c21.cfg", "VIEW ViewMC" if ctx.thorough else "VIEW ViewS", "INVARIANT EmitW"),
                        fc.consts(MIX, [1], [1, 2], depth))
-    g2 = ctx.generate(mcg, workers=4, timeout=2400)
+    g2 = fc.mc_and_generate(ctx, mcg, timeout=2400)
     ctx.notes["g2_histories"] = len(g2)
     # histories without a link say nothing about C21
     g2 = [h for h in g2 if any(op["ev"] == "link" for op in h)]
-    hists += fc.sample(rng, g2, 9000 if ctx.thorough else 450)
+    hists += fc.sample_pref(rng, g2, 3000 if ctx.thorough else 300, fc.link_then(("write", "create", "delete", "rename")), 0.8)
+    # the implementation-shaped generator (Dev: every known-finding deviation) must break the design invariants
+    dv = ctx.instance("DEV_FilerNS_C21_counter", "FilerNS", "SPECIFICATION Spec\nINVARIANT LinkCounterIsNames\nCHECK_DEADLOCK FALSE",
+                      fc.consts(["create", "link", "delete", "nodata", "rename"], [1], [1], 3, dev=True))
+    ctx.model_check(dv, workers=2, expect_violation="LinkCounterIsNames", label="known findings break LinkCounterIsNames at design level")
     if ctx.thorough:
+        dv = ctx.instance("DEV_FilerNS_C21_rename", "FilerNS", "SPECIFICATION Spec\nPROPERTY RenameMovesSubtree\nCHECK_DEADLOCK FALSE",
+                          fc.consts(["create", "link", "rename"], [1], [1], 3, dev=True))
+        ctx.model_check(dv, workers=4, expect_violation="RenameMovesSubtree", label="rename-drops-link breaks RenameMovesSubtree (entries arrive unchanged) at design level")
         mc = ctx.instance("MC_FilerNS_C21", "FilerNS", fc.cfg_text("FilerNS_c21.cfg"), fc.consts(MIX, [1], [1], 3))
         ctx.model_check(mc, workers=4, timeout=1500)
         g3 = ctx.instance("G3_FilerNS_C21", "FilerNS", "SPECIFICATION Spec\nINVARIANT Emit\nCHECK_DEADLOCK FALSE",
                           fc.consts(MIX + ["mkdir", "update"], [1, 2, 3], [1, 2, 3], 10, links=3))
-        hists += ctx.generate(g3, simulate=2000, depth=11)
+        hists += ctx.generate(g3, simulate=800, depth=11)
     hists = [fc.observers(rng, fc.PATHS, [fc.norm_op(op, rng) for op in h], 0.15) for h in hists]
-    hists += fc.random_scripts(rng, 1500 if ctx.thorough else 110, 14, WEIGHTS)
+    hists += fc.random_scripts(rng, 800 if ctx.thorough else 80, 12, WEIGHTS)
     fc.drive_and_judge(ctx, hists, nontrivial, mutate, ["C21"])
     ctx.rule = ("executions = one TLC witness history per (namespace state incl. link records, last operation) to depth %d "
                 "over 5 paths x 2 link ids that contains a link (sampled in the quick tier; thorough adds random walks of "
-                "length 10) + seeded random input scripts of length 14 (link / write through any name / rename / "
+                "length 10) + seeded random input scripts of length 12 (link / write through any name / rename / "
                 "overwrite / delete); after every call: recursive ListEntries snapshot (content, attributes, link id and "
                 "counter shown by every name), LookupDirectoryEntry on sampled names, KvGet of every link record; "
                 "non-trivial = a successful link followed by a successful write, rename, delete or overwrite" % depth)
